@@ -122,6 +122,13 @@ func (r *runner) matchStruct(st reflect.Type, fs []*mfield, where string) *vrt.V
 			if v := r.matchStruct(sf.Type, f.children, at); v != nil {
 				return v
 			}
+		case kArrayStruct:
+			if sf.Type.Kind() != reflect.Array || sf.Type.Len() != f.otype.Len() || sf.Type.Elem().Kind() != reflect.Struct {
+				return viol("leaf-type", "translated field %s has type %s, want an array of %d structs", at, sf.Type, f.otype.Len())
+			}
+			if v := r.matchStruct(sf.Type.Elem(), f.children, at+"[]"); v != nil {
+				return v
+			}
 		case kSliceStruct:
 			if sf.Type.Kind() != reflect.Slice || sf.Type.Elem().Kind() != reflect.Struct {
 				return viol("leaf-type", "translated field %s has type %s, want slice of struct", at, sf.Type)
@@ -218,8 +225,29 @@ func (r *runner) forwardElem(src, wroot, dst reflect.Value, children []*mfield) 
 			if err := r.forwardElem(src, wroot, df.Elem(), c.children); err != nil {
 				return err
 			}
+		case kArrayStruct, kSliceStruct:
+			// an array / slice of structs inside the element: slot by slot,
+			// the children's paths are relative to the slot
+			sarr, warr := byPath(src, c.origin), byPath(wroot, c.origin)
+			if !sarr.IsValid() || !warr.IsValid() {
+				return fmt.Errorf("element has no field %v", c.origin)
+			}
+			darr := dst.Field(idx)
+			if c.kind == kSliceStruct {
+				if sarr.IsNil() {
+					continue
+				}
+				darr.Set(reflect.MakeSlice(darr.Type(), sarr.Len(), sarr.Len()))
+			} else if darr.Kind() != reflect.Array || darr.Len() != sarr.Len() {
+				return fmt.Errorf("element field %q is not an array of %d", k, sarr.Len())
+			}
+			for i := 0; i < sarr.Len(); i++ {
+				if err := r.forwardElem(sarr.Index(i), warr.Index(i), darr.Index(i), c.children); err != nil {
+					return err
+				}
+			}
 		default:
-			return fmt.Errorf("unsupported slice of structs inside a slice element")
+			return fmt.Errorf("unsupported field kind inside a slice element")
 		}
 	}
 	return nil
@@ -685,6 +713,53 @@ func runC10(c Case) vrt.Verdict {
 			}
 		}
 	}
+	// depth of embedding (an embedded struct inside an embedded struct ...)
+	embDepth := 0
+	var scan3 func(fs []*mfield, d int)
+	scan3 = func(fs []*mfield, d int) {
+		for _, f := range fs {
+			if f.kind != kPStruct {
+				continue
+			}
+			nd := 0
+			if f.anon {
+				nd = d + 1
+				if nd > embDepth {
+					embDepth = nd
+				}
+			}
+			scan3(f.children, nd)
+		}
+	}
+	scan3(md.t0, 0)
+	if embDepth >= 2 {
+		labels = append(labels, fmt.Sprintf("embedding-levels=%d", embDepth))
+		if c.Chain.has("anonflatten") {
+			labels = append(labels, fmt.Sprintf("anonflatten:embedding-levels=%d", embDepth))
+			inner := false
+			for _, fe := range append(append([]FillEntry{}, c.Fill...), c.Fill2...) {
+				if tl, ok := md.pick(fe.Path, c.Sides); ok && len(tl.f.origin) >= 3 {
+					inner = true
+				}
+			}
+			if inner {
+				labels = append(labels, "anonflatten:filled-inside-inner-embedded")
+			}
+		}
+	}
+	arrInElem := false
+	for _, fe := range append(append([]FillEntry{}, c.Fill...), c.Fill2...) {
+		if tl, ok := md.pick(fe.Path, c.Sides); ok && tl.f.kind == kSliceStruct && !fe.Empty {
+			for _, ch := range tl.f.children {
+				if ch.kind == kArrayStruct && makeLeaf(tl.f.otype, fe.Seed, r.plain, false).Len() >= 1 {
+					arrInElem = true
+				}
+			}
+		}
+	}
+	if arrInElem {
+		labels = append(labels, "filled:array-of-structs-inside-elements")
+	}
 	if namedUnitMap {
 		labels = append(labels, "map-of-named-empty-struct")
 		if c.Chain.has("setslice") {
@@ -792,7 +867,7 @@ func runC10(c Case) vrt.Verdict {
 }
 
 const c10Rule = "a config struct type from the full shape grammar (scalars, durations, text-unmarshalable and named types, slices, arrays, maps, sets, user pointers, nested / pointer / embedded structs incl. embedded types with tagged and aliased fields, slices of structs, skipped fields; depth<=3, <=8 fields per struct) with generated dials / alias / source-specific / format tags whose words are known by construction; T0 = Pointerify(T); " +
-	"%s; embeddable types include structs with 2..3 differently typed nested struct members by value and by pointer between scalar leaves (hoisting them gives one input field several struct-typed outputs; leaves are filled in none / only non-last / some / all of them) and structs with unexported fields in first, middle and last position; slices of structs include elements that embed structs by value with unexported fields in first and middle position and with nested struct members (elements are not pointerified; the element with an unexported field in LAST position is generated only with VERIF_C10_TRAILING_UNEXPORTED=1 while finding anonflatten-trailing-unexported is open); leaf types include maps of a NAMED empty struct (map[string]Unit, map[int]Unit, *map[string]Unit), which are not sets: the set->slice mangler leaves them alone and they reverse unchanged; leaf types include maps whose KEY type is time.Duration (map[Duration]string, map[Duration][]int, map[Duration]Duration, map[Duration][]Duration, map[Duration]map[string]Duration, []map[Duration]int, *map[Duration]string, map[string]map[Duration]int), always filled with 1..3 entries, so that the Duration substitution has to translate and reverse map keys alone and together with values; slices of structs also have elements with pointer-to-struct members and a nested value struct holding one ([]Node, 0..3 elements with different values; one sub-transformer serves all elements); TWO independent fills are reverse-translated one after the other by the same transformers (after the all-empty value), each judged on its own, then every earlier result is judged again against a freshly built expectation (a later ReverseTranslate must not change a value returned earlier: key earlier-result-mutated) and must be address-disjoint from the new result including the returned struct itself (key results-share-memory); a subset of the original leaves is written THROUGH their translated counterparts (values from seeds, converted forward by the model: set->slice, Duration->ParsingDuration, own text rendering for string casts, the type's own MarshalText for text-unmarshalers), for every aliased field through either the primary or the alias copy; in 3 of 4 cases every slice written into the translated value (top level, inside maps / pointers / arrays, inside elements of slices of structs) carries 1..3 elements of spare capacity holding junk, as append-grown decoder output does; with probability 3/8 a written leaf takes its EMPTY value instead of the seeded one -- the empty string for string leaves (through a string cast: a translated *string pointing to \"\", which must reverse to a non-nil pointer to \"\", not to an unset leaf) and a non-nil empty slice / map / set for collections (text \"\" through a string cast). " +
+	"%s; embeddable types include structs with 2..3 differently typed nested struct members by value and by pointer between scalar leaves (hoisting them gives one input field several struct-typed outputs; leaves are filled in none / only non-last / some / all of them) and structs with unexported fields in first, middle and last position; slices of structs include elements that embed structs by value with unexported fields in first and middle position and with nested struct members (elements are not pointerified; the element with an unexported field in LAST position is generated only with VERIF_C10_TRAILING_UNEXPORTED=1 while finding anonflatten-trailing-unexported is open); leaf types include maps of a NAMED empty struct (map[string]Unit, map[int]Unit, *map[string]Unit), which are not sets: the set->slice mangler leaves them alone and they reverse unchanged; leaf types include maps whose KEY type is time.Duration (map[Duration]string, map[Duration][]int, map[Duration]Duration, map[Duration][]Duration, map[Duration]map[string]Duration, []map[Duration]int, *map[Duration]string, map[string]map[Duration]int), always filled with 1..3 entries, so that the Duration substitution has to translate and reverse map keys alone and together with values; embeddable types also nest: two and three levels of embedding, by value and by pointer at each level, with leaves at every level (anonymous-flatten hoists ONE level per struct: the inner embedded struct stays an embedded field of the level it was hoisted to, and its own embedded structs are hoisted into it); elements of slices of structs also have ARRAYS of structs not behind a pointer ([2]NestA, [3]Leafy with a set and a duration, different values per slot), which every recursing mangler is applied to slot by slot; slices of structs also have elements with pointer-to-struct members and a nested value struct holding one ([]Node, 0..3 elements with different values; one sub-transformer serves all elements); TWO independent fills are reverse-translated one after the other by the same transformers (after the all-empty value), each judged on its own, then every earlier result is judged again against a freshly built expectation (a later ReverseTranslate must not change a value returned earlier: key earlier-result-mutated) and must be address-disjoint from the new result including the returned struct itself (key results-share-memory); a subset of the original leaves is written THROUGH their translated counterparts (values from seeds, converted forward by the model: set->slice, Duration->ParsingDuration, own text rendering for string casts, the type's own MarshalText for text-unmarshalers), for every aliased field through either the primary or the alias copy; in 3 of 4 cases every slice written into the translated value (top level, inside maps / pointers / arrays, inside elements of slices of structs) carries 1..3 elements of spare capacity holding junk, as append-grown decoder output does; with probability 3/8 a written leaf takes its EMPTY value instead of the seeded one -- the empty string for string leaves (through a string cast: a translated *string pointing to \"\", which must reverse to a non-nil pointer to \"\", not to an unset leaf) and a non-nil empty slice / map / set for collections (text \"\" through a string cast). " +
 	"Oracle: a descriptor-level model of each mangler gives every translated field its documented key (flattened dials / dialsenv / dialsflag / dialspflag tag, json / yaml / toml tag or Go name per nesting level, alias value for alias copies), type and conversion; translated fields are located by that key only; required: TranslateType yields exactly the model's key set and leaf types at every level, the reverse-translated value has type T0, each written leaf holds the value converted back, every other leaf is nil, parent pointers are allocated iff a leaf below is set, and an all-empty translated value reverses to an all-nil T0. " +
 	"non-trivial = chain length >= 2 and the shape has nesting (or an aliased field before a nested one); distinct = distinct case JSON"
 
